@@ -69,13 +69,23 @@ def freshView (t : T) : List Row := abs (sync t)
 /-- `cpu.process_item(datum, keys=keys_dict)` for every input row (read after the affected relations were
 cleared), in order: `datum = row[index[input_column]]`,
 `keys_dict` = the key columns of the input relation by name. -/
-def processCalls (sch : Schema) (s : Suite) (sel : Option (String × String) := none) :
+def processCalls (sch : Schema) (s : Suite) (sel : Option (String × String) := none) (src : Option Suite := none) :
     Except Err (List (Nat × Dict)) :=
-  match selectorOf sel, processInput sch (clearAt s (affectedIdx sch)) sel with
+  match selectorOf sel, processInput sch (match src with | none => clearAt s (affectedIdx sch) | some q => q) sel with
   | .ok (_, inCol), .ok (inFields, items) =>
     let c := inFields.findIdx (fun f => f.name == inCol)
     .ok (items.map (fun r => (r.getD c cNone, keysOf inFields r)))
   | .error e, _ => .error e
   | _, .error e => .error e
+
+/-! ### two TestSuite objects on one directory -/
+
+/-- the relation files are shared: after ANOTHER suite wrote them (`disk` = that suite after its commit),
+this suite's tables keep their own bookkeeping (`_rows`, counters) but read the new files -/
+def adoptFiles (disk : Suite) (a : Suite) : Suite :=
+  List.zipWith (fun d t => { t with file := d.file, gz := d.gz }) disk a
+
+/-- `itsdb.TestSuite(dir)` on a directory whose relation files are those of `disk` -/
+def freshSuite (disk : Suite) : Suite := reloadAll disk
 
 end Verif.C10
